@@ -109,6 +109,7 @@ inductive Op where
   | dest (target : Oid)
   | reload (target : Oid)
   | via (owner : Oid) (op : Op)      -- evaluate a function pointer made by `owner` that performs `op`
+  | bind (newOwner : Oid) (op : Op)  -- bind() an efun pointer (load_object / clone_object) to `newOwner`, then run it
   deriving Repr, BEq, DecidableEq
 
 /-- what master::compile_object does for a path: no policy for that directory (returns 0, nothing logged) /
@@ -132,9 +133,14 @@ structure Policy where
   /-- re-entrancy: while answering creator_file(name) the verification master first calls back into the creating
       object - only when that is the master itself - and makes it seteuid(0) -/
   cfDrop : Nat → String → Bool := fun _ _ => false
+  /-- master::valid_bind(doer, old owner = doer, new owner) for f_bind -/
+  vb : Nat → Oid → Oid → Ans := fun _ _ _ => .int 1
+  /-- what master::get_root_uid() answers now, when it no longer is the name of the first load (`none`: still `cfg.root`);
+      get_bb_uid() may change as well - set_master ignores it after the first load, so the model has nothing for it -/
+  root : Nat → Option Name := fun _ => none
 
 inductive Err where
-  | noEuidLoad | noEuidClone | exportZero | badArg | policy | simulDest
+  | noEuidLoad | noEuidClone | exportZero | badArg | policy | simulDest | bindDenied
   deriving Repr, BEq, DecidableEq
 
 inductive Res where
@@ -163,6 +169,8 @@ structure StepRec where
   first : Bool := true          -- this segment starts the op (rendering only)
   co : Option (String × CoAns) := none     -- master::compile_object was asked (path, what it did)
   vsnap : List Oid := []        -- ids whose object is virtual (virtualp) at the snapshot
+  vb : Option (Oid × Oid × Ans) := none    -- master::valid_bind was asked (doer = old owner, new owner, verdict)
+  bindTo : Option Oid := none   -- this segment starts a bind(): the function will run as that object
   deriving Repr, BEq, DecidableEq
 
 /-! registry: association list keyed by `oid` -/
@@ -295,18 +303,20 @@ def cloneSelf (cfg : Cfg) (pol : Policy) (i : Nat) (w : World) (A : Obj) (newOid
     World × Creation × Bool :=
   create cfg pol i { w with cloneSeq := w.cloneSeq + 1 } A newOid (p.name ++ "#" ++ toString w.cloneSeq) false
 
-def doDest (cfg : Cfg) (w : World) (A : Obj) (t : Oid) : World × List Creation × Option (Oid × Name × Ans) × Res :=
+def doDest (cfg : Cfg) (rootNow : Name) (w : World) (A : Obj) (t : Oid) : World × List Creation × Option (Oid × Name × Ans) × Res :=
   match getO w.objs t with
   | none => (w, [], none, .nobj)
   | some T =>
     if t = masterOid then
       -- destruct_object(master_ob): load_object of a new master on behalf of the caller (its euid test), the old
       -- master's creator_file answers for the master file (not logged), then set_master: uid = euid = get_root_uid()
+      -- = `rootNow`, what the NEW master answers - through add_uid: a uid record of its own (or the existing one of
+      -- that name); the root uid record of the first load is never renamed, every other object keeps its names
       -- (harness: a master without get_root_uid() is not reloaded - its uids would come from that unlogged answer)
       if cfg.noRoot = true then (w, [], none, .nobj)
       else if A.oid ≠ masterOid ∧ A.euid = none then (w, [], none, .err .noEuidLoad)
       else
-        let M' : Obj := { T with uid := some cfg.root, euid := some cfg.root }
+        let M' : Obj := { T with uid := some rootNow, euid := some rootNow }
         ({ w with objs := setO w.objs M' }, [{ name := w.nameOf T, ans := none, made := some M' }], none, .int 1)
     else if t = simulOid then
       -- destruct_object: "*Cannot destruct simul_efun_object while master_object exists."
@@ -522,6 +532,12 @@ def reloadRefused (pol : Policy) (i : Nat) (w : World) (t : Oid) : Bool :=
   | some T => !(pol.script i (scriptKey (w.nameOf T))).isEmpty
   | none => false
 
+/-- efun pointers the harness binds: load_object / clone_object -/
+def bindable : Op → Bool
+  | .load _ => true
+  | .clone _ _ => true
+  | _ => false
+
 /-- one op of `a`; `run` runs the nested op of the master inside compile_object, `sub` the create() scripts of the
     objects made; `nested` = the op is itself part of a create() script (destruct refused by the harness) -/
 def execWith (cfg : Cfg) (pol : Policy) (i : Nat) (run : Run) (sub : Sub) (nested : Bool) (w : World) (a : Oid)
@@ -535,7 +551,7 @@ def execWith (cfg : Cfg) (pol : Policy) (i : Nat) (run : Run) (sub : Sub) (neste
     | .exportUid t => single a op (doExport w A t)
     | .load p => execLoad cfg pol i run sub w a A p
     | .clone o p => execClone cfg pol i run sub w a A o p
-    | .dest t => if nested then (w, [seg w a op none [] (some .nobj) true]) else single a op (doDest cfg w A t)
+    | .dest t => if nested then (w, [seg w a op none [] (some .nobj) true]) else single a op (doDest cfg ((pol.root i).getD cfg.root) w A t)
     | .reload t =>
       if nested = true ∧ reloadRefused pol i w t = true then (w, [seg w a op none [] (some .nobj) true])
       else execReload sub w a t
@@ -552,6 +568,30 @@ def execWith (cfg : Cfg) (pol : Policy) (i : Nat) (run : Run) (sub : Sub) (neste
             | none => .int 0)
           | none => .int 0
         (y.1, seg w a op none [] none true :: y.2 ++ [seg y.1 a op none [] (some res) false])
+    | .bind t op' =>
+      -- lib/lpc/operator.c f_bind: same owner = nothing to do (the master is not asked); otherwise master
+      -- valid_bind(doer, old owner, new owner) through the NON-catching apply, refusal iff !MASTER_APPROVED = error;
+      -- the bound function then runs with the NEW owner as current_object (its euid counts); afterwards the harness
+      -- reports geteuid(bound function) = the new owner's euid
+      match getO w.objs t with
+      | none => (w, [seg w a op none [] (some .nobj) true])
+      | some _ =>
+        if bindable op' = false then (w, [seg w a op none [] (some .nobj) true])
+        else
+          let v := pol.vb i a t
+          let asked : Option (Oid × Oid × Ans) := if t = a then none else some (a, t, v)
+          if t ≠ a ∧ v = .err then (w, [{ seg w a op none [] (some (.err .policy)) true with vb := asked, bindTo := none }])
+          else if t ≠ a ∧ v.approved = false then
+            (w, [{ seg w a op none [] (some (.err .bindDenied)) true with vb := asked, bindTo := none }])
+          else
+            let y := run w t op'
+            let res : Res := match getO y.1.objs t with
+              | some T' => (match T'.euid with
+                | some n => .oid ("s:" ++ n)
+                | none => .int 0)
+              | none => .int 0
+            (y.1, { seg w a op none [] none true with vb := asked, bindTo := some t } :: y.2 ++
+              [seg y.1 a op none [] (some res) false])
 
 def runScript (f : Run) (w : World) (o : Oid) : List Op → World × List StepRec
   | [] => (w, [])
